@@ -59,8 +59,35 @@ def site_grid(tier):
     return pts
 
 
+def run_large(res):
+    """An input of 120 011 positions (well above any plausible block size) in P-1."""
+    from pymatgen.core import PeriodicSite
+
+    from gemdat.shape import ShapeAnalyzer
+
+    g, lat, ops = group('P-1', (5.13, 6.27, 7.41, 70, 80, 100))
+    M = np.array(lat.matrix)
+    site = np.array([0.98, 0.02, 0.51])
+    n = 120011
+    k = np.arange(n)
+    positions = np.stack([(k * 0.6180339887) % 1, (k * 0.7548776662) % 1, (k * 0.5698402910) % 1], axis=1)
+    radius = 1.0
+    exp, ties = expected(site, ops, M, positions, radius)
+    case = {'large_positions': n}
+    try:
+        sa = ShapeAnalyzer(sites=[PeriodicSite('Li', site, lat, label='X')], lattice=lat, spacegroup=g)
+        got = np.asarray(sa.analyze_positions(positions.copy(), radius=radius)[0].coords, dtype=float).reshape(-1, 3)
+        res.evals += len(ops) * n
+        res.outcome(('large', len(got)))
+        if ties == 0 and (len(got) != len(exp) or (len(got) and np.max(np.linalg.norm(got, axis=1)) >= radius + 1e-6) or not multiset_equal(got, exp)):
+            res.violation('large-input-collected-points-wrong', case, f'{n} positions: got {len(got)} points, expected {len(exp)}; max norm {np.max(np.linalg.norm(got, axis=1)) if len(got) else 0:.3f}')
+    except Exception as e:  # noqa: BLE001
+        res.violation(f'shape-raise-{type(e).__name__}', case, str(e))
+    res.sample({'large_input_positions': n, 'space_group': 'P-1'})
+
+
 def shards(tier, seed):
-    out = []
+    out = [{'large': True}]
     groups = [g for g in GROUPS[:QUICK_GROUPS] if g[0] != 'Fm-3m'] if tier == 'quick' else GROUPS
     for sg, params in groups:
         pts = site_grid(tier)
@@ -244,6 +271,9 @@ def eval_site(sg, params, site, radius_spec, supercell, res: Result):
 
 def run_shard(shard) -> Result:
     res = Result()
+    if shard.get('large'):
+        run_large(res)
+        return res
     pts = site_grid(shard['tier'])
     radii = [1.0, 'w'] if shard['tier'] == 'quick' else [0.5, 1.0, 'w']
     for k in range(shard['lo'], shard['hi']):
@@ -258,5 +288,8 @@ def run_shard(shard) -> Result:
 
 def replay(case):
     res = Result()
+    if 'large_positions' in case:
+        run_large(res)
+        return [{'kind': v['kind'], 'detail': v['detail']} for v in res.viols]
     eval_site(case['sg'], case['params'], case['site'], case['radius'], tuple(case['supercell']), res)
     return [{'kind': v['kind'], 'detail': v['detail']} for v in res.viols]
